@@ -269,6 +269,21 @@ func hasDoneReceive(fn *ssa.Function) bool {
 
 // isAfterFuncArg: the closure fn is passed to context.AfterFunc.
 func isAfterFuncArg(fn *ssa.Function) bool {
+	// a method handed over as a method value: context.AfterFunc(ctx, x.wake)
+	if theClosures != nil {
+		for _, mc := range theClosures.methodValues[fn] {
+			if mc.Referrers() == nil {
+				continue
+			}
+			for _, ref := range *mc.Referrers() {
+				if call, ok := ref.(*ssa.Call); ok {
+					if o := calleeObj(&call.Call); o != nil && isFuncNamed(o, "context", "", "AfterFunc") {
+						return true
+					}
+				}
+			}
+		}
+	}
 	_, uses, ok := funcValueUses(fn)
 	if !ok {
 		return false
@@ -1216,10 +1231,23 @@ func ruleLoopDrivers(r *Run, id, desc string, pick func(fn *ssa.Function) bool, 
 		})
 		k := 0
 		for _, rc := range rs {
+			// in a loop of this function, or in a helper whose every call site sits in a loop (the select of a loop
+			// moved into a method of its own)
+			var outerLoopSite ssa.Instruction
 			if !inLoop(rc.at) {
-				continue
+				sites := p.staticCallSites(fn)
+				all := len(sites) > 0
+				for _, s := range sites {
+					if !inLoop(s) {
+						all = false
+					}
+				}
+				if !all {
+					continue
+				}
+				outerLoopSite = sites[0]
 			}
-			l := p.Leaves(rc.ch, provOpts{})
+			l := p.Leaves(rc.ch, provOpts{ParamDepth: 2})
 			kind := ""
 			switch {
 			case hasLeaf(l, "field:time.Timer.C"):
@@ -1236,6 +1264,9 @@ func ruleLoopDrivers(r *Run, id, desc string, pick func(fn *ssa.Function) bool, 
 			name := fnName(fn)
 			key := fmt.Sprintf("%s timed receive#%d (%s)", name, k, kind)
 			loop := loopBlocks(rc.at.Block())
+			if outerLoopSite != nil {
+				loop = loopBlocks(outerLoopSite.Block())
+			}
 			switch kind {
 			case "ticker":
 				r.Check(key, true, posOf(p, rc.at), name, "a Ticker fires repeatedly")
@@ -1244,6 +1275,9 @@ func ruleLoopDrivers(r *Run, id, desc string, pick func(fn *ssa.Function) bool, 
 				r.Check(key, true, posOf(p, rc.at), name, "time.After channel")
 			case "timer":
 				back := rc.branch != nil && blockReaches(rc.branch, rc.at.Block())
+				if outerLoopSite != nil {
+					back = true // the helper returns into the caller's loop
+				}
 				rearmed := false
 				for b := range loop {
 					for _, ins := range b.Instrs {
